@@ -788,8 +788,8 @@ class ExprMixin:
             if isinstance(o, HListStruct):
                 idx = self.norm_index(st, node, self.eval_int(sl, st), o.n, "list index")
                 items = []
-                for kd, a, ln in zip(o.kinds, o.arrs, o.lens):
-                    e = HArr(kd, z3.Select(a, idx), z3.Select(ln, idx))
+                for j, (kd, a, ln) in enumerate(zip(o.kinds, o.arrs, o.lens)):
+                    e = HArr(kd, z3.Select(a, idx), z3.Select(ln, idx), origin=(base.ref, idx, j))
                     st.assume(e.n >= 0)
                     items.append(st.alloc(e))
                 return Tup(items, o.names, o.tname)
